@@ -55,5 +55,27 @@ theorem tok_static_text_key (k : Nat) (key : Option Nat) (l o : Nat) (st rs : Op
     ∧ call (tokSem false) 20 Rs.Gen.tok_text_key [encTok k key l o st rs] (xs := []) = .val (vOpt (key.map .nat)) [] := by
   refine ⟨?_, ?_⟩ <;> kernel_rfl
 
+/-- a red node as `text_range` sees it: `data().kind.as_child()` (the offset of a child, nothing for the root) and the stored
+    length of its green node -/
+def nodeSem (child : Option Nat) (len : Nat) : Sem :=
+  { tokSem false with meth := fun m recv args =>
+      match recv, args with
+      | .atom 6, [] =>
+        if m == N.data then .ok (.strct [(N.field.kind, .ctor 890 [])]) recv
+        else if m == N.green then .ok (.ctor 891 []) recv
+        else .unknown
+      | .ctor 890 [], [] =>
+        if m == N.as_child then .ok (vOpt (child.map fun off => vTuple [.atom 0, .atom 0, .nat off])) recv else .unknown
+      | .ctor 891 [], [] => if m == N.text_len then .ok (.nat len) recv else .unknown
+      | _, _ => .unknown }
+
+/-- `SyntaxNode::text_range`: the root starts at 0, a child at the offset it was created with; the length is the green node's
+    stored length (C02: the span an element reports is its offset plus the stored length — that the offset is the prefix sum is
+    `history_canonical`) -/
+theorem nd_text_range (child : Option Nat) (len : Nat) :
+    call (nodeSem child len) 30 Rs.Gen.nd_text_range [.atom 6] (xs := []) =
+      .val (vTuple [.nat (child.getD 0), .nat (child.getD 0 + len)]) [] := by
+  cases child <;> kernel_rfl
+
 end Gen
 end Cst
